@@ -5,6 +5,11 @@ CLOSURE   The inheritance link fields ``sub_assets`` / ``super_assets`` are read
           that builds / pushes associations down the hierarchy, by to_dict and by the class factory
           (direct ``allOf`` parents).  Anywhere else a direct read is a non-transitive (one level)
           sub-type test: indirect descendants / ancestors are missed.
+CLOSUREFN The closure functions themselves compute a reflexive-transitive closure in the right direction:
+          each reads only its own link field (super_assets for is_subasset_of / get_all_superassets,
+          sub_assets for get_all_subassets), iterates it transitively (a worklist fed with the link of the
+          element taken from the worklist, a recursive call, or delegation to another closure function) and
+          includes the asset itself.  Unknown shapes are 'unproven'.
 OWNNODES  A graph attacker only ever reaches nodes taken from the graph's own containers: the
           argument of ``attacker.compromise(...)`` and whatever is appended to an attacker's
           ``entry_points`` inside AttackGraph.attach_attackers / add_attacker comes from
@@ -31,9 +36,138 @@ OWN_FUNCS = ['AttackGraph.attach_attackers', 'AttackGraph.add_attacker']
 OWN_CONTAINERS = {'nodes', '_id_to_node', '_full_name_to_node'}
 
 
-def run(ctx) -> list[Inst]:
+CLOSURE_FUNCS = {
+    'LanguageGraphAsset.is_subasset_of': 'super_assets',
+    'LanguageGraphAsset.get_all_subassets': 'sub_assets',
+    'LanguageGraphAsset.get_all_superassets': 'super_assets',
+}
+
+
+def _closure_functions(ctx) -> list[Inst]:
     prog = ctx.prog
     insts = []
+    props = ('C15', 'C01', 'C02')
+    for fname, link in CLOSURE_FUNCS.items():
+        f = prog.func(fname)
+        rel = f.module.relpath
+        selfn = f.self_name
+        reads = [n for n in own_nodes(f.node) if isinstance(n, ast.Attribute) and n.attr in CLOSURE_FIELDS
+                 and isinstance(n.ctx, ast.Load)]
+        calls = [n for n in own_nodes(f.node) if isinstance(n, ast.Call) and isinstance(n.func, ast.Attribute)]
+        delegates = [c for c in calls if c.func.attr in ('get_all_subassets', 'get_all_superassets', 'is_subasset_of')
+                     and c.func.attr != f.name]
+        recursive = [c for c in calls if c.func.attr == f.name]
+        # (a) direction
+        construct = f'CLOSUREFN: {f.name} follows {link} only'
+        wrong = [r for r in reads if r.attr != link]
+        wrong_deleg = [c for c in delegates if (c.func.attr == 'get_all_subassets') != (link == 'sub_assets')
+                       and c.func.attr != 'is_subasset_of']
+        if wrong or wrong_deleg:
+            w = wrong[0] if wrong else wrong_deleg[0]
+            insts.append(Inst(
+                RULE, f.short, construct, 'violation',
+                msg=(f"'{stmt_text(w)}' walks the hierarchy in the wrong direction: {f.name} must follow {link} "
+                     f"(sub-types and super-types get exchanged)"),
+                file=rel, line=w.lineno, props=props))
+        elif reads or delegates:
+            insts.append(Inst(RULE, f.short, construct, 'ok', file=rel, line=f.node.lineno, props=props))
+        else:
+            insts.append(Inst(RULE, f.short, construct, 'unproven', msg='no link read and no delegation found',
+                              file=rel, line=f.node.lineno, props=props))
+        # (b) transitivity
+        construct = f'CLOSUREFN: {f.name} is transitive'
+        loops = [n for n in own_nodes(f.node) if isinstance(n, (ast.While, ast.For))]
+        fed = False
+        why = ''
+        for lp in loops:
+            # names that receive elements inside the loop and are also consumed by it
+            for n in ast.walk(lp):
+                if isinstance(n, ast.Call) and isinstance(n.func, ast.Attribute) and n.func.attr in ('extend', 'append', 'update', 'add') \
+                        and isinstance(n.func.value, ast.Name) and n.args:
+                    wl = n.func.value.id
+                    arg = n.args[0]
+                    link_reads = [x for x in ast.walk(arg) if isinstance(x, ast.Attribute) and x.attr == link]
+                    consumed = isinstance(lp, ast.While) and any(
+                        isinstance(x, ast.Name) and x.id == wl for x in ast.walk(lp.test)) or \
+                        any(isinstance(x, ast.Call) and isinstance(x.func, ast.Attribute) and x.func.attr == 'pop'
+                            and isinstance(x.func.value, ast.Name) and x.func.value.id == wl for x in ast.walk(lp))
+                    if link_reads and consumed:
+                        base = link_reads[0].value
+                        if isinstance(base, ast.Name) and base.id == selfn:
+                            why = (f"'{stmt_text(n)}' feeds the worklist with the links of the asset itself, not of "
+                                   f"the asset taken from the worklist: only one level is explored")
+                        else:
+                            fed = True
+                if isinstance(n, ast.AugAssign) and isinstance(n.target, ast.Name) and \
+                        any(isinstance(x, ast.Attribute) and x.attr == link and not (
+                            isinstance(x.value, ast.Name) and x.value.id == selfn) for x in ast.walk(n.value)):
+                    fed = True
+        if fed or recursive or delegates:
+            insts.append(Inst(RULE, f.short, construct, 'ok',
+                              msg='worklist fed from the popped element' if fed else
+                              ('recursive' if recursive else 'delegates to a closure function'),
+                              file=rel, line=f.node.lineno, props=props))
+        elif reads:
+            insts.append(Inst(
+                RULE, f.short, construct, 'violation',
+                msg=(why or f"{f.name} reads .{link} but neither iterates a worklist fed from the visited assets "
+                            f"nor recurses: only direct {link} are considered, indirect ones are missed"),
+                file=rel, line=reads[0].lineno, props=props))
+        else:
+            insts.append(Inst(RULE, f.short, construct, 'unproven', msg='shape not recognised', file=rel,
+                              line=f.node.lineno, props=props))
+        # (c) reflexivity
+        construct = f'CLOSUREFN: {f.name} includes the asset itself'
+        has_self_list = any(isinstance(n, ast.List) and any(isinstance(e, ast.Name) and e.id == selfn for e in n.elts)
+                            for n in own_nodes(f.node))
+        self_eq = any(isinstance(n, ast.Compare) and len(n.ops) == 1 and isinstance(n.ops[0], (ast.Eq, ast.Is))
+                      and any(isinstance(x, ast.Name) and x.id == selfn for x in (n.left, n.comparators[0]))
+                      for n in own_nodes(f.node))
+        if f.name == 'is_subasset_of':
+            ok = has_self_list or self_eq
+        else:
+            # every list that is returned starts from [self]
+            ok = has_self_list
+            rets = [n for n in own_nodes(f.node) if isinstance(n, ast.Return) and isinstance(n.value, ast.Name)]
+            for r in rets:
+                for n in own_nodes(f.node):
+                    if isinstance(n, ast.Assign) and len(n.targets) == 1 and isinstance(n.targets[0], ast.Name) \
+                            and n.targets[0].id == r.value.id and n.lineno < r.lineno:
+                        v = n.value
+                        starts_self = isinstance(v, ast.List) and any(isinstance(e, ast.Name) and e.id == selfn for e in v.elts)
+                        empty_or_links = (isinstance(v, ast.List) and not v.elts) or \
+                            any(isinstance(x, ast.Attribute) and x.attr == link for x in ast.walk(v))
+                        if not starts_self and empty_or_links:
+                            selfadd = any(isinstance(c, ast.Call) and isinstance(c.func, ast.Attribute)
+                                          and c.func.attr in ('append', 'insert') and isinstance(c.func.value, ast.Name)
+                                          and c.func.value.id == r.value.id and
+                                          any(isinstance(a, ast.Name) and a.id == selfn for a in c.args)
+                                          for c in own_nodes(f.node) if isinstance(c, ast.Call))
+                            if not selfadd:
+                                ok = False
+                                insts.append(Inst(
+                                    RULE, f.short, construct, 'violation',
+                                    msg=(f"the result list starts as '{stmt_text(v, 50)}' and the asset itself is never "
+                                         f"added: {f.name} returns the strict closure, but the documented result "
+                                         f"(and the sub-type tests built on it) include the asset itself"),
+                                    file=rel, line=n.lineno, props=props))
+                                break
+                else:
+                    continue
+                break
+            else:
+                insts.append(Inst(RULE, f.short, construct, 'ok' if ok else 'unproven',
+                                  msg='' if ok else 'no [self] start found', file=rel, line=f.node.lineno, props=props))
+            continue
+        insts.append(Inst(RULE, f.short, construct, 'ok' if ok else 'unproven',
+                          msg='' if ok else 'no [self] start and no equality with self found', file=rel,
+                          line=f.node.lineno, props=props))
+    return insts
+
+
+def run(ctx) -> list[Inst]:
+    prog = ctx.prog
+    insts = _closure_functions(ctx)
     # ---------------------------------------------------------------- CLOSURE
     nreads = 0
     for f in prog.all_funcs():
